@@ -39,3 +39,34 @@ package bufmodule
 //@   assert before "digestOfDigests, err := bufcas.NewDigestForContent" deps-all-b5: forall j int :: 0 <= j && j < len(depDigests) ==> depDigests[j].Type() == DigestTypeB5
 //@   assert before "digestOfDigests, err := bufcas.NewDigestForContent" deps-complete: forall j int :: 0 <= j && j < len(depDigests) ==> (exists a int :: 1 <= a && a < len(digestStrings) && digestStrings[a] == depDigests[j].String())
 //@   assert before "digestOfDigests, err := bufcas.NewDigestForContent" deps-only: forall a int :: 1 <= a && a < len(digestStrings) ==> (exists j int :: 0 <= j && j < len(depDigests) && digestStrings[a] == depDigests[j].String())
+//
+// C09: every accessor of cached module data verifies the digest first, and the verification accepts only
+// content whose recomputed digest equals the digest pinned by the requesting key.
+//@ trusted pure interface ModuleKey
+//@ trusted pure func DigestEqual(a, b) (r)
+//@ func (m *moduleData) Bucket() (r, err)
+//@   property C09
+//@   callback pure checkDigest
+//@   callback pure getBucket
+//@   ensures verified-first: err == nil ==> m.checkDigest() == nil
+//@ func (m *moduleData) DepModuleKeys() (r, err)
+//@   property C09
+//@   callback pure checkDigest
+//@   callback pure getDepModuleKeys
+//@   ensures verified-first: err == nil ==> m.checkDigest() == nil
+//@ func (m *moduleData) V1Beta1OrV1BufYAMLObjectData() (r, err)
+//@   property C09
+//@   callback pure checkDigest
+//@   callback pure getV1BufYAMLObjectData
+//@   ensures verified-first: err == nil ==> m.checkDigest() == nil
+//@ func (m *moduleData) V1Beta1OrV1BufLockObjectData() (r, err)
+//@   property C09
+//@   callback pure checkDigest
+//@   callback pure getV1BufLockObjectData
+//@   ensures verified-first: err == nil ==> m.checkDigest() == nil
+//
+//@ func newModuleData(ctx, moduleKey, getBucket, getDepModuleKeys, getV1BufYAMLObjectData, getV1BufLockObjectData) (r)
+//@   property C09
+//@   modifies heap, ghost.fail, ghost.wfail, ghost.sinkPaths, ghost.sinkBuckets
+//@   closure 0 ensures true
+//@   assert before "return nil" digest-verified: DigestEqual(expectedDigest, actualDigest)
